@@ -7,6 +7,7 @@
 From Coq Require Import List Ascii String Bool Arith Lia.
 Import ListNotations.
 From SV Require Import Lex LexRender Expr Parens ParensProof Census EraseProof Fmt0.
+From SV Require QuoteMore.
 Notation tok := Lex.tok (only parsing).
 
 (* ---------- induction over expressions with their argument / field lists ---------- *)
@@ -63,6 +64,8 @@ Proof. intros H. rewrite shape_nexp. apply (R_no_double_minus c (shape e)); [app
 (* ---------- C02 (b): the erasure of the printed tokens is untouched by normalisation ---------- *)
 Section Erase.
 Variable d : dial.
+Variable st : QuoteMore.style.
+Notation pexp := (Fmt0.pexp st).
 Lemma erase_kw_paren_l r : erase d (kw "(" :: r) = erase d r. Proof. reflexivity. Qed.
 Lemma erase_kw_paren_r : erase d [kw ")"] = []. Proof. reflexivity. Qed.
 Lemma erase_commas l : erase d (commas l) = List.concat (map (erase d) l).
@@ -98,9 +101,9 @@ Proof.
   - (* EField *) cbn [pexp]. congr. apply IHe.
   - (* EIndex *) cbn [pexp]. congr; [apply IHe1|apply IHe2].
   - (* ECall *) cbn [pexp]. rewrite map_map. congr; [apply IHe|].
-    apply (erase_commas_congr (fun x => pexp (nexp Std x)) pexp). eapply Forall_impl; [|exact H]. intros a Ha. apply Ha.
+    apply (erase_commas_congr (fun x => pexp (nexp Std x)) (fun x => pexp x)). eapply Forall_impl; [|exact H]. intros a Ha. apply Ha.
   - (* EMethod *) cbn [pexp]. rewrite map_map. congr; [apply IHe|].
-    apply (erase_commas_congr (fun x => pexp (nexp Std x)) pexp). eapply Forall_impl; [|exact H]. intros a Ha. apply Ha.
+    apply (erase_commas_congr (fun x => pexp (nexp Std x)) (fun x => pexp x)). eapply Forall_impl; [|exact H]. intros a Ha. apply Ha.
   - (* EUn *) cbn [pexp]. congr. rewrite erase_guard. apply IHe.
   - (* EBin *) cbn [pexp]. congr; [apply IHe1|apply IHe2].
   - (* EParen *) destruct (droppable c (shape e)).
@@ -111,7 +114,7 @@ Proof.
     change (pexp (ETable (map (nexp Std) (f :: fs)))) with (kw "{" :: sp :: commas (map pexp (map (nexp Std) (f :: fs))) ++ [sp; kw "}"]).
     change (pexp (ETable (f :: fs))) with (kw "{" :: sp :: commas (map pexp (f :: fs)) ++ [sp; kw "}"]).
     rewrite map_map. congr.
-    apply (erase_commas_congr (fun x => pexp (nexp Std x)) pexp). eapply Forall_impl; [|exact H]. intros a Ha. apply Ha.
+    apply (erase_commas_congr (fun x => pexp (nexp Std x)) (fun x => pexp x)). eapply Forall_impl; [|exact H]. intros a Ha. apply Ha.
   - (* FPos *) cbn [pexp]. apply IHe.
   - (* FNamed *) cbn [pexp]. congr. apply IHe.
   - (* FKey *) cbn [pexp]. congr; [apply IHe1|apply IHe2].
@@ -123,6 +126,8 @@ Definition fbody (c : cfg0) (d : nat) (b : list stmt) : list tok :=
   match b with [] => [sp; kw "end"] | _ => eol c :: pblock c (S d) b ++ indent c d ++ [kw "end"] end.
 Section Unfold.
 Variables (c : cfg0) (d : nat).
+Notation pexp := (Fmt0.pexp (style0 c)).
+Notation pexps := (Fmt0.pexps (style0 c)).
 Lemma p_do b : pstmt c d (SDo b) = kw "do" :: eol c :: pblock c (S d) b ++ indent c d ++ [kw "end"]. Proof. reflexivity. Qed.
 Lemma p_while e b : pstmt c d (SWhile e b) = kw "while" :: sp :: pexp e ++ sp :: kw "do" :: eol c :: pblock c (S d) b ++ indent c d ++ [kw "end"]. Proof. reflexivity. Qed.
 Lemma p_repeat b e : pstmt c d (SRepeat b e) = kw "repeat" :: eol c :: pblock c (S d) b ++ indent c d ++ kw "until" :: sp :: pexp e. Proof. reflexivity. Qed.
@@ -180,6 +185,8 @@ End StmtInd.
 Opaque pblock.
 Section EraseProg.
 Variables (dl : dial) (c : cfg0).
+Notation pexp := (Fmt0.pexp (style0 c)).
+Notation pexps := (Fmt0.pexps (style0 c)).
 Ltac congr := repeat first [ reflexivity | assumption | apply erase_app_congr | apply erase_cons ].
 Lemma erase_ncond e : erase dl (pexp (ncond e)) = erase dl (pexp e).
 Proof.
@@ -187,7 +194,7 @@ Proof.
 Qed.
 Lemma erase_pexps es : erase dl (pexps (nexps es)) = erase dl (pexps es).
 Proof.
-  unfold pexps, nexps. rewrite map_map. apply (erase_commas_congr dl (fun x => pexp (nexp Std x)) pexp).
+  unfold pexps, nexps. rewrite map_map. apply (erase_commas_congr dl (fun x => pexp (nexp Std x)) (fun x => pexp x)).
   apply Forall_forall. intros x _. apply erase_pexp_nexp.
 Qed.
 Definition Ps (s : stmt) : Prop := forall d, erase dl (pstmt c d (nstmt s)) = erase dl (pstmt c d s).
@@ -236,6 +243,8 @@ Transparent pblock.
 (* ---------- C10 on whole programs: the printed tokens pass the whitespace discipline ---------- *)
 Section Whitespace.
 Variable c : cfg0.
+Notation pexp := (Fmt0.pexp (style0 c)).
+Notation pexps := (Fmt0.pexps (style0 c)).
 Definition wcfg (eof : bool) : wscfg := {| windows := windows0 c; spaces := spaces0 c; width := width0 c; eof_formatted := eof |}.
 (* the scan of Census.ws_scan on comment-free token lists, as a state machine (state: "at the start of a line");
    it is stricter than ws_scan in one place: an indentation is judged even when nothing follows it *)
